@@ -85,6 +85,14 @@ def main(tier, replay=None):
         chk.violation('build', 'working tree does not build: ' + str(e)[:500], {'error': str(e)}, no_input=True)
         return chk.finish()
 
+    # translation tie for the SIMD generators: regenerate coq/Gen/X86Progs.v from raid/x86.c, x86z.c and validate the
+    # generated programs (run by the extracted interpreter) against the real functions; must precede the obligations
+    try:
+        import c02_simd
+        c02_simd.run(chk, snap, drv)
+    except Exception as e:
+        import traceback
+        chk.violation('simd', 'SIMD translation step failed: %s' % e, {'traceback': traceback.format_exc()[-2000:]}, no_input=True)
     ob = check_obligations('C02')
     proof_coverage(chk, ob, 'make -f Makefile.coq -k Props/Properties_C02.vo (coqc 8.16.1, full .vo) + Print Assumptions',
                    ['Coq 8.16.1 kernel incl. vm_compute', 'harness/gen/tables.py (regex translator of raid/tables.c)',
